@@ -21,6 +21,7 @@ import (
 	"path/filepath"
 	"strings"
 	"sync"
+	"sync/atomic"
 	"time"
 
 	"github.com/btcsuite/btcd/chaincfg/v2"
@@ -71,6 +72,26 @@ type History struct {
 	TNum    int          `json:"tnum,omitempty"`
 	TDen    int          `json:"tden,omitempty"`
 	Verdict string       `json:"verdict,omitempty"` // observation: none|unknown|...|badmapping
+	// family e (end to end): Replies[k] = what each peer does on the k-th
+	// announcement of the transaction; Steps = caller / chain events
+	Replies [][]PeerScript `json:"replies,omitempty"`
+	Steps   []EStep        `json:"steps,omitempty"`
+	// family t (timed): a stream of caller events shorter apart than the
+	// rebroadcast interval
+	Stream        string `json:"stream,omitempty"` // conf|bc
+	StreamMs      int    `json:"stream_ms,omitempty"`
+	DurMs         int    `json:"dur_ms,omitempty"`
+	MinRebroadcst int    `json:"min_rebroadcasts,omitempty"`
+	Rebroadcasts  int    `json:"rebroadcasts,omitempty"` // observation
+}
+
+// EStep is one step of an end-to-end history.
+type EStep struct {
+	Kind string `json:"kind"` // bc|block
+	// observations
+	Ret       string `json:"ret,omitempty"` // bc: class of Broadcast's return
+	Announced bool   `json:"announced"`     // the peers received an inv for the tx
+	Idx       int    `json:"idx"`           // which entry of Replies answered it
 }
 
 var outNames = []string{"accept", "unknown", "invalid", "fee", "mempool", "confirmed", "other"}
@@ -237,7 +258,15 @@ func corpusV() []History {
 
 // scripted remote end of one peer connection
 func serveRemote(conn net.Conn, p PeerScript, txHash chainhash.Hash, wg *sync.WaitGroup) {
+	var n int32
+	serveRemoteRounds(conn, []PeerScript{p}, txHash, wg, &n)
+}
+
+// serveRemoteRounds: the k-th inv for the transaction is answered according
+// to rounds[k] (the last entry for all later ones); invs counts them.
+func serveRemoteRounds(conn net.Conn, rounds []PeerScript, txHash chainhash.Hash, wg *sync.WaitGroup, invs *int32) {
 	defer wg.Done()
+	p := rounds[0]
 	pver := uint32(wire.AddrV2Version)
 	params := chaincfg.SimNetParams
 	var wmu sync.Mutex
@@ -276,6 +305,13 @@ func serveRemote(conn net.Conn, p PeerScript, txHash chainhash.Hash, wg *sync.Wa
 			for _, iv := range m.InvList {
 				if iv.Type != wire.InvTypeTx && iv.Type != wire.InvTypeWitnessTx {
 					continue
+				}
+				if iv.Hash == txHash {
+					k := int(atomic.AddInt32(invs, 1)) - 1
+					if k >= len(rounds) {
+						k = len(rounds) - 1
+					}
+					p = rounds[k]
 				}
 				switch p.Beh {
 				case "getdata", "getdata_reject", "reject_otherhash":
@@ -632,6 +668,24 @@ func main() {
 			jobs = append(jobs, job{h: genV(c.Rng(a.Seed, vBase+k), vBase+k)})
 			k++
 		}
+		ne := 3
+		if a.Tier == "thorough" {
+			ne = 30
+		}
+		k = 0
+		for _, h := range corpusE() {
+			h.ID = eBase + k
+			k++
+			jobs = append(jobs, job{h: h})
+		}
+		for i := 0; i < ne; i++ {
+			jobs = append(jobs, job{h: genE(c.Rng(a.Seed, eBase+k), eBase+k)})
+			k++
+		}
+		for i, h := range corpusT() {
+			h.ID = tBase + i
+			jobs = append(jobs, job{h: h})
+		}
 	}
 
 	var mu sync.Mutex
@@ -645,8 +699,16 @@ func main() {
 			defer wg.Done()
 			defer func() { <-sem }()
 			h := &j.h
-			if h.Family == "v" {
-				f := runV(h)
+			if h.Family == "v" || h.Family == "e" || h.Family == "t" {
+				var f []c.ImplFailure
+				switch h.Family {
+				case "v":
+					f = runV(h)
+				case "e":
+					f = runE(h)
+				default:
+					f = runT(h)
+				}
 				mu.Lock()
 				rep.ImplFailures = append(rep.ImplFailures, f...)
 				mu.Unlock()
@@ -693,13 +755,26 @@ func main() {
 
 	var sb strings.Builder
 	sb.WriteString("From Coq Require Import ZArith List Bool.\nFrom Verif Require Import C15.Model C15.Spec C15.Replay.\nImport ListNotations.\nOpen Scope Z_scope.\n")
-	var bts, vts []string
+	var bts, vts, ets []string
 	sigs := c.Signatures{}
 	nontrivial := c.Signatures{}
 	for i := range hs {
 		h := &hs[i]
 		var t, sig string
-		if h.Family == "v" {
+		if h.Family == "e" {
+			t, sig = eTerm(h)
+			ets = append(ets, t)
+			rep.Histogram["e2e_steps"] += len(h.Steps)
+			for _, st := range h.Steps {
+				if st.Kind == "block" && st.Announced {
+					rep.Histogram["e2e_reannouncements"]++
+					nontrivial.Add("e:" + sig)
+				}
+			}
+		} else if h.Family == "t" {
+			sig = fmt.Sprintf("t:%s/%d/%d", h.Stream, h.StreamMs, h.IntervalMs)
+			rep.Histogram["timed_rebroadcasts"] += h.Rebroadcasts
+		} else if h.Family == "v" {
 			t, sig = vTerm(h)
 			vts = append(vts, t)
 			rep.Histogram["verdict:"+h.Verdict]++
@@ -761,9 +836,10 @@ func main() {
 		f.WriteString("Definition cases : list (Z * bcase) := [\n" + strings.Join(bts[lo:hi], ";\n") + "].\n")
 		if k == 0 {
 			f.WriteString("Definition vcases : list (Z * vcase) := [\n" + strings.Join(vts, ";\n") + "].\n")
+			f.WriteString("Definition ecases : list (Z * ecase) := [\n" + strings.Join(ets, ";\n") + "].\n")
 			f.WriteString("Definition thr_rows : list (Z * Z * Z * Z) := [\n" + strings.Join(tr, ";\n") + "].\n")
 			f.WriteString("Definition parse_rows : list (Z * list bool * Z) := [\n" + strings.Join(pr, ";\n") + "].\n")
-			f.WriteString("Definition R := Eval vm_compute in (run_cases cases ++ run_vcases vcases ++ map (fun i => (i, 3, 0, 0)) (thr_mismatches thr_rows) ++ map (fun i => (i, 4, 0, 0)) (parse_mismatches parse_rows)).\n")
+			f.WriteString("Definition R := Eval vm_compute in (run_cases cases ++ run_vcases vcases ++ run_ecases ecases ++ map (fun i => (i, 3, 0, 0)) (thr_mismatches thr_rows) ++ map (fun i => (i, 4, 0, 0)) (parse_mismatches parse_rows)).\n")
 		} else {
 			f.WriteString("Definition R := Eval vm_compute in (run_cases cases).\n")
 		}
@@ -781,7 +857,7 @@ func main() {
 	rep.Histogram["retried_runs"] = retries
 	rep.Evaluations = len(hs)
 	rep.DistinctNontrivial = len(nontrivial)
-	rep.Rule = "family b: histories of Broadcast (all outcome classes) / MarkAsConfirmed / block / tick / worker call+return (scripted outcome) / Stop over 2..6 transactions with chain, diamond, independent and random dependency graphs, run on the real pushtx.Broadcaster; non-trivial = some rebroadcast sent at least two transactions. family v: 1..5 scripted peers (getdata, getdata+reject, reject only, silence, other hash) against the production sendTransaction; non-trivial = some peer asked for the tx and some reject arrived. distinct = distinct op-kind / behaviour signature"
+	rep.Rule = "family b: histories of Broadcast (all outcome classes) / MarkAsConfirmed / block / tick / worker call+return (scripted outcome) / Stop over 2..6 transactions with chain, diamond, independent and random dependency graphs, run on the real pushtx.Broadcaster; non-trivial = some rebroadcast sent at least two transactions. family v: 1..5 scripted peers (getdata, getdata+reject, reject only, silence, other hash) against the production sendTransaction; non-trivial = some peer asked for the tx and some reject arrived. family e: production sendTransaction wired into a production Broadcaster against scripted peers (one tx; Broadcast / block steps, per-announcement unanimous or mixed replies); non-trivial = some block re-announced the tx. family t: 100 ms ticker under a 20-25 ms stream of caller events, no blocks, at least 3 rebroadcasts in 1.5 s required. distinct = distinct op-kind / behaviour signature"
 	n := 0
 	for i := range hs {
 		if i == 0 || i == 7 || hs[i].ID == vBase {
